@@ -148,7 +148,7 @@ def spline(draw, kinds=("curve", "surface", "volume"), rational=None, max_p=4, m
     kind = draw(st.sampled_from(list(kinds)))
     if long and kind == "curve" and draw(st.integers(0, 19)) == 0:
         p = draw(st.integers(1, 3))
-        n = draw(st.integers(250, 258))
+        n = draw(st.sampled_from([250, 252, 253, 254, 255, 256, 258]))          # (sampled: plain integer draws cluster at the lower bound)
         m = n - p - 1
         kv = [0.0] * (p + 1) + [(i + 1) / float(m + 1) for i in range(m)] + [1.0] * (p + 1)
         dim = draw(st.sampled_from(list(dims or (2, 3))))
